@@ -335,7 +335,7 @@ def _merge_into(out, s1, s2, c1, exe):
                 if isinstance(v, Ptr):
                     continue
                 tb = _nested_store(tb, [s1._ix(i) for i in cidx], v)
-            st.arr = ta if ta.eq(tb) else _named(z3.If(c1, ta, tb))
+            st.arr = (ta if ta is not None else tb) if (ta is None or tb is None) else (ta if ta.eq(tb) else _named(z3.If(c1, ta, tb)))
             for cidx in set(a.conc) | set(b.conc):
                 va, vb = a.conc.get(cidx), b.conc.get(cidx)
                 if isinstance(va, Ptr) or isinstance(vb, Ptr):
